@@ -1,55 +1,124 @@
+(* The reader and the inner read loop of the scanner, for every schedule (empty reads included) and both
+   (n, err) conventions. *)
 From Coq Require Import Lia.
 Require Import Base.Bytes Model.Frame Model.Split Lib.Bufio Spec.StreamSpec Proofs.SplitProofs Proofs.SegProofs Proofs.LemmaB Proofs.SegT Proofs.ScanThm1.
 Open Scope nat_scope.
 
-Definition sched_pos (l : list nat) := Forall (fun k => 1 <= k) l.
+(* leading empty reads of a schedule *)
+Fixpoint lead0 (l : list nat) : nat := match l with O :: t => S (lead0 t) | _ => 0 end.
+
+(* fewer than 101 consecutive empty reads anywhere: the inner loop tolerates 100 and fails on the 101st *)
+Fixpoint sched_ok (l : list nat) : Prop :=
+  lead0 l <= 100 /\ match l with [] => True | _ :: t => sched_ok t end.
+
 Definition mu (r : reader) := length (rest r) + length (sched r).
 
-Lemma sched_pos_tl l : sched_pos l -> sched_pos (tl l).
-Proof. intros H. destruct l; [exact H|]. inversion H; assumption. Qed.
+Lemma sched_ok_tl l : sched_ok l -> sched_ok (tl l).
+Proof. destruct l as [|k t]; [intros H; exact H|]. intros [_ H]. exact H. Qed.
 
-Lemma read_nil r room : rest r = [] -> read r room = ([], Some (final r), r).
+Lemma sched_ok_nil : sched_ok []. Proof. cbn. split; [lia|exact I]. Qed.
+
+Lemma read_zero r room t : sched r = O :: t ->
+  read r room = ([], None, {| rest := rest r; sched := t; final := final r; err_with_data := err_with_data r |}).
 Proof. intros H. unfold read. rewrite H. reflexivity. Qed.
 
-Lemma read_cons r room : rest r <> [] -> err_with_data r = false -> sched_pos (sched r) -> 1 <= room ->
-  exists k, 1 <= k <= length (rest r) /\ k <= room /\
-    read r room = (firstn k (rest r), None,
-       {| rest := skipn k (rest r); sched := tl (sched r); final := final r; err_with_data := err_with_data r |}).
+Lemma read_nil r room : lead0 (sched r) = 0 -> rest r = [] -> read r room = ([], Some (final r), r).
 Proof.
-  intros Hne Hewd Hpos Hr. unfold read. destruct (rest r) as [|b bs] eqn:Er; [congruence|].
-  rewrite Hewd. cbn [andb].
-  set (k0 := match sched r with [] => room | k :: _ => k end).
-  assert (Hk0 : 1 <= k0) by (unfold k0; destruct (sched r) as [|k l] eqn:Es; [lia| inversion Hpos; assumption]).
-  exists (Nat.min k0 (Nat.min room (length (b :: bs)))). cbn [length]. repeat split; try lia.
+  intros H0 H. unfold read. rewrite H. destruct (sched r) as [|[|k] t]; cbn in H0; try lia; reflexivity.
 Qed.
 
-Lemma read_loop_pos n s r s4 r' :
-  G s -> (sc_end s < buflen s)%N -> err_with_data r = false -> sched_pos (sched r) ->
-  read_loop n s r = (s4, r') ->
-  buflen s4 = buflen s /\ start s4 = start s /\ final r' = final r /\ err_with_data r' = false /\
-  ((rest r = [] /\ pend s4 = pend s /\ serr s4 = set_err (serr s) (final r) /\ r' = r)
-   \/ (exists k, 1 <= k <= length (rest r) /\ pend s4 = pend s ++ firstn k (rest r) /\
-        rest r' = skipn k (rest r) /\ serr s4 = serr s /\ G s4 /\ sched r' = tl (sched r))).
+Lemma read_cons r room : lead0 (sched r) = 0 -> rest r <> [] -> 1 <= room ->
+  exists k, 1 <= k <= length (rest r) /\ k <= room /\
+    read r room = (firstn k (rest r),
+       (if err_with_data r && (length (rest r) <=? k) then Some (final r) else None),
+       {| rest := skipn k (rest r); sched := tl (sched r); final := final r; err_with_data := err_with_data r |}).
 Proof.
-  intros HG Hroom Hewd Hpos H.
-  assert (Hr : 1 <= N.to_nat (buflen s - sc_end s)) by lia.
-  destruct (rest r) as [|b bs] eqn:Er.
-  - assert (H' : read_loop n s r = (with_err (with_pend s (pend s ++ [])) (final r), r)).
-    { destruct n; cbn [read_loop]; rewrite (read_nil _ _ Er); reflexivity. }
-    rewrite H' in H. injection H as <- <-. cbn. rewrite app_nil_r.
-    repeat split; try reflexivity; try assumption. left. repeat split; reflexivity.
-  - destruct (read_cons r _ ltac:(rewrite Er; discriminate) Hewd Hpos Hr) as (k & Hk1 & Hk2 & Hrd).
-    rewrite Er in *.
-    destruct (firstn k (b :: bs)) as [|c cs] eqn:Ef.
-    { apply (f_equal (@length _)) in Ef. rewrite firstn_length in Ef. cbn [length] in *. lia. }
-    assert (H' : read_loop n s r = (with_pend s (pend s ++ c :: cs),
-       {| rest := skipn k (b :: bs); sched := tl (sched r); final := final r; err_with_data := err_with_data r |})).
-    { destruct n; cbn [read_loop]; rewrite Hrd; reflexivity. }
-    rewrite H' in H. injection H as <- <-. cbn [buflen start pend serr final err_with_data rest sched with_pend].
-    repeat split; try reflexivity; try assumption.
-    right. exists k. repeat split; try reflexivity; try lia.
-    + rewrite Ef. reflexivity.
-    + destruct HG as [G1 G2]. unfold sc_end in *. cbn [buflen start pend with_pend].
-      rewrite app_length. rewrite <- Ef, firstn_length. cbn [length] in *. lia.
-    + destruct HG as [G1 G2]. exact G2.
+  intros H0 Hne Hr. unfold read. destruct (rest r) as [|b bs] eqn:Er; [congruence|].
+  destruct (sched r) as [|[|k] t] eqn:Es; cbn in H0; try lia.
+  - exists (Nat.min room (Nat.min room (length (b :: bs)))). cbn [length tl]. repeat split; try lia.
+  - exists (Nat.min (S k) (Nat.min room (length (b :: bs)))). cbn [length tl]. repeat split; try lia.
+Qed.
+
+Lemma with_pend_nil s : with_pend s (pend s ++ []) = s.
+Proof. unfold with_pend. rewrite app_nil_r. destruct s; reflexivity. Qed.
+
+(* one run of the inner loop: end of input (A), k more bytes (B), or k last bytes together with the error (C) *)
+Definition read_loop_post (s : scanner) (r : reader) (s4 : scanner) (r' : reader) : Prop :=
+  buflen s4 = buflen s /\ start s4 = start s /\ final r' = final r /\ err_with_data r' = err_with_data r /\
+  sched_ok (sched r') /\ length (sched r') <= length (sched r) /\
+  ((rest r = [] /\ rest r' = [] /\ pend s4 = pend s /\ serr s4 = set_err (serr s) (final r))
+   \/ (exists k, 1 <= k <= length (rest r) /\ pend s4 = pend s ++ firstn k (rest r) /\
+        rest r' = skipn k (rest r) /\ G s4 /\ mu r' + 1 <= mu r /\
+        ((serr s4 = serr s /\ (err_with_data r = false \/ k < length (rest r)))
+         \/ (err_with_data r = true /\ k = length (rest r) /\ serr s4 = set_err (serr s) (final r))))).
+
+Definition read_loop_tail (n : nat) (s1 : scanner) (r' : reader) : scanner * reader :=
+  match n with O => (with_err s1 TNoProgress, r') | S n' => read_loop n' s1 r' end.
+
+Lemma read_loop_nz n s r s4 r' :
+  lead0 (sched r) = 0 -> G s -> (sc_end s < buflen s)%N -> sched_ok (sched r) ->
+  read_loop n s r = (s4, r') -> read_loop_post s r s4 r'.
+Proof.
+  intros H0 HG Hroom Hok H.
+    assert (Hr : 1 <= N.to_nat (buflen s - sc_end s)) by lia.
+    assert (H1 : read_loop n s r = (let '(bs, e, r'') := read r (N.to_nat (buflen s - sc_end s)%N) in
+      match e with Some err => (with_err (with_pend s (pend s ++ bs)) err, r'')
+      | None => match bs with _ :: _ => (with_pend s (pend s ++ bs), r'') | [] => read_loop_tail n (with_pend s (pend s ++ bs)) r'' end end))
+      by (destruct n; reflexivity).
+    rewrite H1 in H. clear H1.
+    destruct (rest r) as [|b bs] eqn:Er.
+    + rewrite (read_nil _ _ H0 Er) in H. injection H as <- <-.
+      unfold read_loop_post. cbn [buflen start pend serr with_err with_pend]. rewrite app_nil_r.
+      repeat split; try reflexivity; try assumption; try lia.
+      left. rewrite Er. repeat split; reflexivity.
+    + destruct (read_cons r _ H0 ltac:(rewrite Er; discriminate) Hr) as (k & Hk1 & Hk2 & Hrd).
+      rewrite Hrd in H. rewrite Er in *.
+      destruct (firstn k (b :: bs)) as [|c cs] eqn:Ef.
+      { apply (f_equal (@length _)) in Ef. rewrite firstn_length in Ef. cbn [length] in *. lia. }
+      assert (HG4 : forall e, G (with_pend s (pend s ++ c :: cs)) /\ G (with_err (with_pend s (pend s ++ c :: cs)) e)).
+      { intros e. destruct HG as [G1 G2]. unfold G, sc_end in *. cbn [buflen start pend with_pend with_err].
+        rewrite app_length. rewrite <- Ef, firstn_length. cbn [length] in *. split; split; lia. }
+      assert (Hmu : forall rr, rest rr = skipn k (b :: bs) -> sched rr = tl (sched r) -> mu rr + 1 <= mu r).
+      { intros rr E1 E2. unfold mu. rewrite E1, E2, Er, skipn_length. cbn [length] in *.
+        destruct (sched r); cbn [tl length]; lia. }
+      destruct (err_with_data r && (length (b :: bs) <=? k)) eqn:Ee.
+      * apply andb_prop in Ee as [Ee1 Ee2]. apply Nat.leb_le in Ee2.
+        injection H as <- <-. unfold read_loop_post.
+        cbn [buflen start pend serr with_err with_pend final err_with_data rest sched].
+        repeat split; try reflexivity; try (apply sched_ok_tl; assumption); try (destruct (sched r); cbn; lia).
+        right. exists k. rewrite Er.
+        split; [cbn [length] in *; lia|]. split; [rewrite Ef; reflexivity|]. split; [reflexivity|].
+        split; [apply HG4|]. split; [apply Hmu; reflexivity|].
+        right. split; [assumption|]. split; [cbn [length] in *; lia|reflexivity].
+      * injection H as <- <-. unfold read_loop_post.
+        cbn [buflen start pend serr with_err with_pend final err_with_data rest sched].
+        repeat split; try reflexivity; try (apply sched_ok_tl; assumption); try (destruct (sched r); cbn; lia).
+        right. exists k. rewrite Er.
+        split; [cbn [length] in *; lia|]. split; [rewrite Ef; reflexivity|]. split; [reflexivity|].
+        split; [apply (HG4 TEnd)|]. split; [apply Hmu; reflexivity|].
+        left. split; [reflexivity|]. apply andb_false_iff in Ee. destruct Ee as [Ee|Ee]; [left; exact Ee|right].
+        apply Nat.leb_gt in Ee. exact Ee.
+Qed.
+
+Lemma read_loop_gen n : forall s r s4 r',
+  lead0 (sched r) <= n -> G s -> (sc_end s < buflen s)%N -> sched_ok (sched r) ->
+  read_loop n s r = (s4, r') -> read_loop_post s r s4 r'.
+Proof.
+  induction n as [|n IH]; intros s r s4 r' Hl HG Hroom Hok H.
+  - apply (read_loop_nz 0 s r s4 r'); try assumption. lia.
+  - destruct (sched r) as [|[|k] t] eqn:Es.
+    + apply (read_loop_nz (S n) s r s4 r'); try assumption; rewrite Es; try reflexivity; assumption.
+    + (* an empty read: the loop continues with the rest of the schedule *)
+      cbn [read_loop] in H. rewrite (read_zero r _ t Es) in H. rewrite with_pend_nil in H.
+      set (r1 := {| rest := rest r; sched := t; final := final r; err_with_data := err_with_data r |}) in *.
+      cbn [lead0] in Hl. destruct Hok as [_ Hok].
+      specialize (IH s r1 s4 r' ltac:(cbn [sched r1]; lia) HG Hroom Hok H).
+      unfold read_loop_post in *. cbn [rest sched final err_with_data r1] in IH.
+      destruct IH as (I1 & I2 & I3 & I4 & I5 & I6 & I7).
+      split; [assumption|]. split; [assumption|]. split; [assumption|]. split; [assumption|]. split; [assumption|].
+      split; [rewrite Es; cbn [length]; lia|].
+      destruct I7 as [I7|(k & K1 & K2 & K3 & K4 & K5 & K6)]; [left; exact I7|right].
+      exists k. split; [assumption|]. split; [assumption|]. split; [assumption|]. split; [assumption|]. split; [|assumption].
+      unfold mu in *. cbn [rest sched r1] in K5. rewrite Es. cbn [length]. lia.
+    + apply (read_loop_nz (S n) s r s4 r'); try assumption; rewrite Es; try reflexivity; assumption.
 Qed.
